@@ -15,6 +15,11 @@ from .values import SBool, SNum
 class ColSeries:
     """a column of a (possibly row-subset) frame"""
 
+    def __getattr__(self, attr):
+        from .ctx import unknown_attr
+
+        return unknown_attr("pandas.Series", attr, ("calls", "fn", "fv", "fsec", "fns", "fnat", "ns", "secs", "base", "off", "is_input", "name", "readonly", "telescopes", "diff_of", "frame"))
+
     __hash__ = None
     __array_priority__ = 1000
 
@@ -103,6 +108,11 @@ class FrameIndex:
 
 
 class Frame:
+
+    def __getattr__(self, attr):
+        from .ctx import unknown_attr
+
+        return unknown_attr("pandas.DataFrame", attr, ("calls", "fn", "fv", "fsec", "fns", "fnat", "ns", "secs", "base", "off", "is_input", "name", "readonly", "telescopes", "diff_of", "frame"))
     def __init__(self, n, cols, labels=None, sel=None):
         self.n = n
         self.cols = dict(cols)
@@ -183,6 +193,11 @@ class _SLoc(_ILoc):
 
 class FlagSeries:
     """pd.Series(0, index=df.index, dtype='bool')"""
+
+    def __getattr__(self, attr):
+        from .ctx import unknown_attr
+
+        return unknown_attr("pandas.Series", attr, ("calls", "fn", "fv", "fsec", "fns", "fnat", "ns", "secs", "base", "off", "is_input", "name", "readonly", "telescopes", "diff_of", "frame"))
 
     def __init__(self, frame):
         self.frame = frame
